@@ -199,6 +199,9 @@ func ruleNoMatchRejects(e *Env, rule string, fns ...*ssa.Function) {
 					}
 					subj := call.Call.Args[1]
 					subjOK := flow.RootParam(subj) != nil && (!flow.HasSliceOnPath(subj) || fn.Pkg.Pkg.Name() == "sem")
+					if !subjOK && fn.Pkg.Pkg.Name() == "sem" {
+						subjOK = e.tagTrimmed(subj)
+					}
 					switch {
 					case !recvOK:
 						e.S.Bad(rule, site, "pattern", "the input is matched against something other than "+fn.Pkg.Pkg.Name()+"."+pat.Name()+", the pattern whose language is decided", e.posOf(call), "")
@@ -480,4 +483,61 @@ func ruleErrWrapper(e *Env, rule string, fn, callee *ssa.Function, argNames []st
 			e.S.Bad(rule, site, "wrapper {"+lf.String()+"}", "returns "+got+"; documented: the result of "+cname+call+", its error wrapped", e.Pos(fn), "")
 		}
 	}
+}
+
+// tagTrimmed: v is a result of a function of the module that was handed the input and returns, in that result, on
+// every path either the parameter itself or the parameter without its first byte (the tag prefix cut off by a helper).
+func (e *Env) tagTrimmed(v ssa.Value) bool {
+	v = flow.StripConv(v)
+	if mc, ok := v.(*ssa.MultiConvert); ok {
+		v = flow.StripConv(mc.X)
+	}
+	ex, ok := v.(*ssa.Extract)
+	if !ok {
+		return false
+	}
+	call, ok := ex.Tuple.(*ssa.Call)
+	if !ok {
+		return false
+	}
+	g := e.C.StaticCallee(&call.Call)
+	if g == nil || !flow.InRepo(g) {
+		return false
+	}
+	g = flow.Origin(g)
+	pi := -1
+	for ai, a := range call.Call.Args {
+		if rp := flow.RootParam(a); rp != nil && mentionsTypeParam(rp.Type()) && !flow.HasSliceOnPath(a) && ai < len(g.Params) {
+			if pi >= 0 {
+				return false
+			}
+			pi = ai
+		}
+	}
+	if pi < 0 {
+		return false
+	}
+	n := 0
+	for _, r := range flow.Returns(g) {
+		vals := flow.ReturnValues(r)
+		if ex.Index >= len(vals) {
+			return false
+		}
+		rv := flow.StripConv(vals[ex.Index])
+		switch x := rv.(type) {
+		case *ssa.Parameter:
+			if x != g.Params[pi] {
+				return false
+			}
+		case *ssa.Slice:
+			lo, isK := flow.ConstInt(x.Low)
+			if x.X != ssa.Value(g.Params[pi]) || x.High != nil || x.Low == nil || !isK || lo != 1 {
+				return false
+			}
+		default:
+			return false
+		}
+		n++
+	}
+	return n > 0
 }
